@@ -45,6 +45,7 @@ type Actor struct {
 	Name    string
 	Dev     *Device
 	R       *core.SplitMix // per-invocation choices (prefix length, random piece sizes), from one lane draw
+	Seed    uint64         // the seed R was made from
 	Mode    int
 	Piece   int
 	UsePeek bool
@@ -123,10 +124,17 @@ func (a *Actor) Run(r io.Reader, header string, declared int) error {
 	case ActNothing:
 		want = 0
 	case ActPrefix:
+		// how much an invocation wants is a function of (actor seed, invocation index): the
+		// generator a.R has been advanced by the piece sizes of earlier invocations, whose number
+		// depends on how the stream was delivered (first invocation: nothing consumed yet)
+		ch := a.R
+		if len(a.Inv) > 1 {
+			ch = core.NewSplitMix(a.Seed ^ uint64(len(a.Inv))*0x9e3779b97f4a7c15)
+		}
 		if declared >= 0 {
-			want = a.R.Intn(declared + 1)
+			want = ch.Intn(declared + 1)
 		} else {
-			want = a.R.Intn(4096)
+			want = ch.Intn(4096)
 		}
 	case ActToEOF, ActOver:
 		want = -1
